@@ -10,6 +10,8 @@
      {"e":"ret","err":bool,"ls":listing}      AutoSave returned
      {"e":"crash","ls":listing}               the process was killed; listing taken by the parent
      {"e":"exit","ls":listing}                the process ended by itself; listing taken by the parent
+     {"e":"boot","ls":listing}                the next process was started in the directory (the grol binary, or
+                                              the repl API, which has no start-up code); listing after its start-up
      {"e":"load","lines":[lines]}             SaveGlobals of a fresh process after AutoLoad
    listing = [gr |-> file, t1 |-> file, ..] (temp files named in order of appearance),
    file = [ex, ls], line = [k, v, s, t] (s = shape, see AutoSave.tla); bytes that are no known binding
@@ -75,6 +77,8 @@ TraceCrash ==
   \/ IsEvent("crash") /\ (Crash \/ TornThen(pc, FALSE))
   \/ IsEvent("exit")  /\ Crash      \* the process ended by itself: it is gone all the same
 
+TraceBoot == IsEvent("boot") /\ Boot
+
 TraceLoad ==
   /\ IsEvent("load")
   /\ Load
@@ -84,7 +88,7 @@ TraceLoad ==
 
 TraceNext ==
   /\ \/ TraceBegin
-     \/ (TraceHook \/ TraceRet \/ TraceCrash) /\ Seen(Ev.ls)
+     \/ (TraceHook \/ TraceRet \/ TraceCrash \/ TraceBoot) /\ Seen(Ev.ls)
      \/ TraceLoad
   /\ l' = l + 1
 
